@@ -54,7 +54,8 @@ META = {
         'equality on messages.'),
 }
 RULE = ('one case = (operation, well-formed NoteSequence with every repeated field populated incl. section groups and '
-        'metadata, arguments incl. arguments that drive the operation into each of its documented errors; a few '
+        'metadata, every parameter at several non-default values, in 20 % of the cases the output of an earlier real '
+        'operation as argument, arguments that drive the operation into each of its documented errors; a few '
         'ill-formed inputs only to reach NegativeTimeError); non-trivial when the input has notes and at least one '
         'other repeated field; distinct by hash of the canonical case')
 ASSUMPTIONS = [
@@ -105,19 +106,30 @@ def _timefunc(spec):
     if kind == 'pw':   # piecewise: identity up to p, then slope 2
         p = nsio.t2f(spec[1])
         return lambda t: t if t <= p else p + 2 * (t - p)
+    if kind == 'late':  # identity up to p, negative afterwards: only LATE notes / events are rejected,
+        p = nsio.t2f(spec[1])   # after the copy has already been worked on
+        return lambda t: t if t <= p else -1.0
     raise ValueError(kind)
 
 
 def _call(op, seqs, args):
     """Run the real operation. seqs: list of protos (the arguments). Returns list of result protos (+ extra ints)."""
     sl = _sl()
-    s = seqs[0]
+    s = seqs[0] if seqs else None
     if op == 'trim':
         return [sl.trim_note_sequence(s, nsio.t2f(args[0]), nsio.t2f(args[1]))], []
     if op == 'extract':
-        return [sl.extract_subsequence(s, nsio.t2f(args[0]), nsio.t2f(args[1]))], []
+        pres = args[2] if len(args) > 2 else None
+        if pres is None:
+            return [sl.extract_subsequence(s, nsio.t2f(args[0]), nsio.t2f(args[1]))], []
+        return [sl.extract_subsequence(s, nsio.t2f(args[0]), nsio.t2f(args[1]),
+                                       preserve_control_numbers=list(pres))], []
     if op == 'extract_many':
-        return list(sl._extract_subsequences(s, [nsio.t2f(t) for t in args[0]])), []
+        pres = args[1] if len(args) > 1 else None
+        if pres is None:
+            return list(sl._extract_subsequences(s, [nsio.t2f(t) for t in args[0]])), []
+        return list(sl._extract_subsequences(s, [nsio.t2f(t) for t in args[0]],
+                                             preserve_control_numbers=list(pres))), []
     if op == 'split_hop':
         return list(sl.split_note_sequence(s, nsio.t2f(args[0]), bool(args[1]))), []
     if op == 'split_list':
@@ -147,14 +159,14 @@ def _call(op, seqs, args):
         return [sl.merge_sequences(seqs)], []
     if op == 'repeat':
         return [sl.repeat_sequence_to_duration(s, nsio.t2f(args[0]),
-                                               nsio.t2f(args[1]) if args[1] else None)], []
+                                               nsio.t2f(args[1]) if args[1] is not None else None)], []
     if op == 'expand':
         return [sl.expand_section_groups(s)], []
     if op == 'remove_redundant':
         return [sl.remove_redundant_data(s)], []
     if op == 'adjust':
         r, k = sl.adjust_notesequence_times(s, _timefunc(args[0]),
-                                            nsio.t2f(args[1]) if args[1] else None)
+                                            nsio.t2f(args[1]) if args[1] is not None else None)
         return [r], [int(k)]
     if op == 'rectify':
         r, al = sl.rectify_beats(s, args[0])
@@ -208,15 +220,87 @@ def _wf_problems(op, ins, outs):
     return sorted(set(probs))
 
 
+def _proto(d):
+    """nsio.to_proto plus what only this property needs: nested section groups, repeated metadata strings."""
+    ns = nsio.to_proto(d)
+    if d.get('meta'):
+        m = d['meta']
+        ns.sequence_metadata.composers.extend(['comp-%d' % (m % 3), 'comp-x', 'comp-%d' % (m % 3)])
+        ns.sequence_metadata.genre.extend(['g-%d' % (m % 2), 'g-%d' % (m % 2)])
+        for outer_id, inner_ids, inner_times, outer_times in d.get('nest', []):
+            g = ns.section_groups.add()
+            g.num_times = outer_times
+            g.sections.add().section_id = outer_id
+            inner = g.sections.add().section_group
+            inner.num_times = inner_times
+            for i in inner_ids:
+                inner.sections.add().section_id = i
+    return ns
+
+
+def _apply_pre(p, pre):
+    """Two-step use: the argument is the OUTPUT of an earlier real operation (falls back to the plain
+    sequence when that operation raises or returns nothing)."""
+    sl = _sl()
+    try:
+        k = pre[0]
+        if k == 'piece':
+            ps = sl.split_note_sequence(p, nsio.t2f(pre[1]))
+            return ps[pre[2] % len(ps)] if ps else p
+        if k == 'extract':
+            return sl.extract_subsequence(p, nsio.t2f(pre[1]), nsio.t2f(pre[2]))
+        if k == 'trim':
+            return sl.trim_note_sequence(p, nsio.t2f(pre[1]), nsio.t2f(pre[2]))
+        if k == 'sustain':
+            return sl.apply_sustain_control_changes(p)
+        if k == 'transpose':
+            return sl.transpose_note_sequence(p, pre[1], min_allowed_pitch=40, max_allowed_pitch=80)[0]
+        if k == 'shift':
+            return sl.shift_sequence_times(p, nsio.t2f(pre[1]))
+        if k == 'quantize_abs':
+            return sl.quantize_note_sequence_absolute(p, pre[1])
+        if k == 'merge':
+            return sl.merge_sequences([p, p])
+        if k == 'remove_redundant':
+            return sl.remove_redundant_data(p)
+    except Exception:  # noqa
+        return p
+    return p
+
+
 def _build(case):
-    return [nsio.to_proto(d) for d in case['input']['seqs']]
+    ps = [_proto(d) for d in case['input']['seqs']]
+    pre = case['input'].get('pre')
+    if pre and ps:
+        ps[0] = _apply_pre(ps[0], pre)
+    return ps
+
+
+def _edit(r):
+    """Edit a returned sequence in every field (aliasing probe)."""
+    for n in r.notes:
+        n.velocity = (n.velocity % 127) + 1
+        n.end_time += 0.5
+    r.total_time += 1.0
+    for t in r.tempos:
+        t.qpm += 1.0
+    for f in ('time_signatures', 'key_signatures', 'text_annotations', 'control_changes', 'pitch_bends',
+              'section_annotations'):
+        for e in getattr(r, f):
+            e.time += 0.25
+    r.subsequence_info.start_time_offset += 1.0
+    r.ticks_per_quarter += 1
+    r.sequence_metadata.title += '!'
+    for g in r.section_groups:
+        g.num_times += 1
+    del r.notes[:1]
 
 
 def impl(case):
     op = case['op']
     args = case['input']['args']
     seqs = _build(case)
-    if case['input'].get('alias'):
+    if case['input'].get('alias') and seqs:
         # the same object passed several times (e.g. concatenate([s, s]))
         seqs = [seqs[0]] * len(seqs)
     before = [_ser(s) for s in seqs]
@@ -236,24 +320,47 @@ def impl(case):
         exc2 = type(e).__name__
     mutated2 = int([_ser(s) for s in seqs] != before)
     same = int(exc1 == exc2 and extra1 == extra2 and [_ser(r) for r in outs1] == [_ser(r) for r in outs2])
-    # results must not alias the argument: editing the result must not change the argument
+    ser1 = [_ser(r) for r in outs1]
+    flags = []
+    # results must not alias the argument, each other, or the results of the other call:
+    # editing a result must change nothing else
     alias = 0
     if exc1 is None:
         for r in outs1:
             for s in seqs:
                 if r is s:
                     alias = 1
+        for i, r in enumerate(outs1):
+            if any(r is q for q in outs1[:i]) or any(r is q for q in outs2):
+                flags.append('results-share-state')
         try:
-            for r in outs2:
-                for n in r.notes:
-                    n.velocity = (n.velocity % 127) + 1
-                r.total_time += 1.0
-                for t in r.tempos:
-                    t.qpm += 1.0
+            if outs2:
+                _edit(outs2[0])
+                if same and [_ser(r) for r in outs2[1:]] != ser1[1:]:
+                    flags.append('results-share-state')
+            for r in outs2[1:]:
+                _edit(r)
             if [_ser(s) for s in seqs] != before:
                 alias = 1
-        except Exception:  # noqa
-            pass
+            if [_ser(r) for r in outs1] != ser1:
+                flags.append('earlier-result-changed')
+        except Exception as e:  # noqa
+            flags.append('harness-edit-failed:' + type(e).__name__)
+    # a third call, on freshly built arguments (new objects, after the edits above): the result may depend on
+    # the argument VALUES only — not on object identity, on earlier calls, or on what was done to earlier results
+    fresh3 = _build(case)
+    if case['input'].get('alias') and fresh3:
+        fresh3 = [fresh3[0]] * len(fresh3)
+    exc3 = None
+    outs3, extra3 = [], []
+    try:
+        outs3, extra3 = _call(op, fresh3, args)
+    except Exception as e:  # noqa
+        exc3 = type(e).__name__
+    if not (exc3 == exc1 and extra3 == extra1 and [_ser(r) for r in outs3] == ser1):
+        flags.append('fresh-copy-differs')
+    if [_ser(r) for r in outs1] != ser1 or [_ser(s) for s in seqs] != before:
+        flags.append('earlier-result-changed')
     fresh = _build(case)
     # "given a well-formed input": the well-formedness clause is only claimed for well-formed arguments
     # (the generator emits a few ill-formed ones to reach NegativeTimeError; non-mutation still applies)
@@ -261,11 +368,12 @@ def impl(case):
     # model side: what Run/C11.v is compared with (the results were edited by the alias probe above:
     # outs1 is untouched, outs2 was edited)
     pred = [[_py_wfb(r), _py_qwfb(r)] for r in outs1]
-    obs = [STATUS.get(exc1 or 'OK', exc1), [[_py_wfb(r), len(r.notes), _grid_total(r)] for r in outs1],
+    obs = [STATUS.get(exc1 or 'OK', exc1),
+           [[_py_wfb(r), len(r.notes), _grid_total(r), len(r.control_changes)] for r in outs1],
            [int(x) for x in extra1]]
     _RESULT_WIRE[_case_key(case)] = json.dumps([nsio.to_wire(r, tfun=_fcode, qfun=lambda q: 0) for r in outs1],
                                                separators=(',', ':'))
-    return [exc1 or 'OK', mutated or mutated2, same, alias, wfp, len(outs1), [pred, obs]]
+    return [exc1 or 'OK', mutated or mutated2, same, alias, wfp, len(outs1), [pred, obs], sorted(set(flags))]
 
 
 # ---------------------------------------------------------------------------
@@ -324,11 +432,26 @@ def _grid_total(r):
         return -1
 
 
-def _flat_ids(d):
+def _flat_ids(ns):
+    """sections_to_concat of expand_section_groups, from the section_groups of the argument (list arithmetic;
+    the model receives the flattened list)."""
+    def in_group(g):
+        out = []
+        for sec in g.sections:
+            f = sec.WhichOneof('section_type')
+            if f == 'section_id':
+                out.append(sec.section_id)
+            elif f == 'section_group':
+                out.extend(in_group(sec.section_group))
+        return out * g.num_times
     ids = []
-    for g in d.get('groups', []) if d.get('meta') else []:
-        ids.extend(list(g[0]) * g[1])
+    for g in ns.section_groups:
+        ids.extend(in_group(g))
     return ids
+
+
+def _opt_list(x):
+    return [] if x is None else [list(x)]
 
 
 def _model_request(case):
@@ -336,14 +459,14 @@ def _model_request(case):
     rectify and fractional linear maps: float arithmetic, see C13)."""
     op = case['op']
     args = case['input']['args']
-    descs = case['input']['seqs']
-    if case['input'].get('alias'):
-        descs = [descs[0]] * len(descs)
+    protos = _build(case)
+    if case['input'].get('alias') and protos:
+        protos = [protos[0]] * len(protos)
     try:
-        ws = [nsio.to_wire(nsio.to_proto(d)) for d in descs]
+        ws = [nsio.to_wire(x) for x in protos]
     except nsio.OffGrid:
         return None
-    w = ws[0]
+    w = ws[0] if ws else None
     if op == 'shift':
         return [10, w, args[0] if args[0] is not None else 0]
     if op == 'stretch':
@@ -351,9 +474,9 @@ def _model_request(case):
     if op == 'trim':
         return [12, w, args[0], args[1]]
     if op == 'extract':
-        return [13, w, args[0], args[1]]
+        return [13, w, args[0], args[1], _opt_list(args[2] if len(args) > 2 else None)]
     if op == 'extract_many':
-        return [14, w, list(args[0])]
+        return [14, w, list(args[0]), _opt_list(args[1] if len(args) > 1 else None)]
     if op == 'split_hop':
         return [15, w, args[0], int(bool(args[1]))]
     if op == 'split_list':
@@ -363,7 +486,7 @@ def _model_request(case):
     if op == 'split_silence':
         return [18, w, args[0]]
     if op == 'transpose':
-        if any(t[3] == 1 and t[2] not in CHORDS for t in descs[0].get('texts', [])) and args[3]:
+        if any(a.annotation_type == 1 and a.text not in CHORDS for a in protos[0].text_annotations) and args[3]:
             return None            # ChordSymbolError path: chord grammar is C10's subject
         return [19, w, args[0], args[1], args[2]]
     if op == 'sustain':
@@ -373,16 +496,15 @@ def _model_request(case):
     if op == 'merge':
         return [22, ws]
     if op == 'repeat':
-        return [23, w, args[0], [args[1]] if args[1] else []]
+        return [23, w, args[0], [args[1]] if args[1] is not None else []]
     if op == 'remove_redundant':
         return [24, w]
     if op == 'expand':
-        d = descs[0]
-        has = int(bool(d.get('meta') and d.get('groups')))
-        return [25, w, has, _flat_ids(d)]
+        has = int(len(protos[0].section_groups) > 0)
+        return [25, w, has, _flat_ids(protos[0])]
     if op == 'adjust':
         spec = args[0]
-        md = [args[1]] if args[1] else []
+        md = [args[1]] if args[1] is not None else []
         if spec[0] == 'lin':
             if spec[2] != 0:
                 return None
@@ -395,6 +517,8 @@ def _model_request(case):
             return [26, w, [4, spec[1], 0], md]
         if spec[0] == 'pw':
             return [26, w, [5, spec[1], 0], md]
+        if spec[0] == 'late':
+            return [26, w, [6, spec[1], -(1 << nsio.TICK_BITS)], md]
     return None
 
 
@@ -405,8 +529,10 @@ def model_input(case):
         wires = json.loads(wires)
     else:                                  # replay / shrinking: run the real operation again
         try:
-            outs, _ = _call(case['op'], _build(case) if not case['input'].get('alias')
-                            else [_build(case)[0]] * len(case['input']['seqs']), case['input']['args'])
+            ps = _build(case)
+            if case['input'].get('alias') and ps:
+                ps = [ps[0]] * len(ps)
+            outs, _ = _call(case['op'], ps, case['input']['args'])
         except Exception:  # noqa
             outs = []
         wires = [nsio.to_wire(r, tfun=_fcode, qfun=lambda q: 0) for r in outs]
@@ -425,15 +551,15 @@ def model_output(case, out):
         if o and o[0] == -1000:
             obs = ['MODEL-ERR', o]
         else:
-            obs = [o[0], [[int(x[0]), int(x[1]), int(x[2])] for x in o[1]], [int(x) for x in o[2]]]
+            obs = [o[0], [[int(x[0]), int(x[1]), int(x[2]), int(x[3])] for x in o[1]], [int(x) for x in o[2]]]
     return [pred, obs]
 
 
 def equal(case, io, mo):
     """Correspondence: (1) Coq wfb/qwfb on the real results == the Python predicate on them;
     (2) model of the operation: same status, same number of results, per result the same wf verdict,
-    note count and total_time (total_time only when the real one is on the tick grid)."""
-    if not isinstance(io, list) or len(io) != 7:
+    note count, number of control changes and total_time (total_time only when the real one is on the grid)."""
+    if not isinstance(io, list) or len(io) != 8:
         return False
     pred, obs = io[6]
     if pred != mo[0]:
@@ -444,7 +570,7 @@ def equal(case, io, mo):
     if obs[0] != m[0] or len(obs[1]) != len(m[1]):
         return False
     for a, b in zip(obs[1], m[1]):
-        if a[0] != b[0] or a[1] != b[1]:
+        if a[0] != b[0] or a[1] != b[1] or a[3] != b[3]:
             return False
         if a[2] != -1 and a[2] != b[2]:
             return False
@@ -457,13 +583,14 @@ EXPECTED_EXC = {
     'trim': {'QuantizationStatusError'},
     'extract': {'QuantizationStatusError', 'ValueError'},
     'extract_many': {'QuantizationStatusError', 'ValueError'},
-    'split_hop': {'QuantizationStatusError', 'ValueError'},
+    # hop 0 (np.arange): undocumented but not a C11 matter; C02 models it as ErrZeroHop
+    'split_hop': {'QuantizationStatusError', 'ValueError', 'ZeroDivisionError'},
     'split_list': {'QuantizationStatusError', 'ValueError'},
     'split_time_changes': {'QuantizationStatusError', 'ValueError'},
     'split_silence': {'QuantizationStatusError', 'ValueError'},
     'shift': {'QuantizationStatusError', 'ValueError'},
     'stretch': {'QuantizationStatusError'},
-    'transpose': set(),
+    'transpose': {'ChordSymbolError'},
     'quantize_rel': {'MultipleTempoError', 'MultipleTimeSignatureError', 'BadTimeSignatureError',
                      'NegativeTimeError', 'QuantizationStatusError'},
     'quantize_abs': {'NegativeTimeError', 'QuantizationStatusError'},
@@ -479,9 +606,9 @@ EXPECTED_EXC = {
 
 
 def oracle(case, io):
-    if not isinstance(io, list) or len(io) != 7 or io[0] == 'HARNESS-EXC':
+    if not isinstance(io, list) or len(io) != 8 or io[0] == 'HARNESS-EXC':
         return {'kind': 'harness-exception', 'detail': str(io)[:300]}
-    status, mutated, same, alias, wfp, _, _ = io
+    status, mutated, same, alias, wfp, _, _, flags = io
     op = case['op']
     if mutated:
         return {'kind': 'argument-mutated', 'op': op, 'status': status}
@@ -491,10 +618,19 @@ def oracle(case, io):
         return {'kind': 'result-aliases-argument', 'op': op}
     if wfp:
         return {'kind': 'result-not-well-formed', 'op': op, 'problems': wfp, 'first_problem': wfp[0]}
+    if flags:
+        # results share state with each other / an earlier result changed when a later one was edited /
+        # the same call on freshly built equal arguments gives something else ("returns the same result when
+        # called again")
+        return {'kind': flags[0], 'op': op, 'status': status, 'flags': flags}
+    if status != 'OK' and status not in EXPECTED_EXC.get(op, set()):
+        return {'kind': 'undocumented-exception-class', 'op': op, 'status': status}
     return None
 
 
 def nontrivial(case, io):
+    if not case['input']['seqs']:
+        return False
     d = case['input']['seqs'][0]
     return bool(d.get('notes')) and any(d.get(f) for f in ('tempos', 'tsigs', 'ksigs', 'texts', 'ccs', 'bends', 'sects'))
 
@@ -512,10 +648,14 @@ def _negative(rng, d):
     """Not well-formed on purpose (an event before time 0): drives the quantizers into NegativeTimeError."""
     d = copy.deepcopy(d)
     k = rng.random()
-    if k < 0.5 or not d['notes']:
-        d['ccs'] = list(d['ccs']) + [[-rng.randint(1, 4) * T, 0, 64, 0, 0, 0, 0]]
+    if k < 0.35 or not d['notes']:
+        d['ccs'] = list(d['ccs'])
+        d['ccs'].insert(rng.randint(0, len(d['ccs'])), [-rng.randint(1, 4) * T, 0, 64, 0, 0, 0, 0])
+    elif k < 0.6:
+        d['texts'] = list(d['texts'])             # text annotations are quantized last
+        d['texts'].insert(rng.randint(0, len(d['texts'])), [-rng.randint(1, 4) * T, 0, 'C', 1])
     else:
-        d['notes'][0][2] = -rng.randint(1, 4) * T
+        d['notes'][rng.randrange(len(d['notes']))][2] = -rng.randint(1, 4) * T   # not necessarily the first note
     return d
 
 
@@ -540,6 +680,21 @@ def _groups(rng, d, sort=True, unknown_id=False):
     return d
 
 
+def _tpoint(rng, d, hi=40):
+    """A cut point: on the quarter-second grid, or exactly on / one tick beside a time of the sequence."""
+    pool = [n[2] for n in d['notes']] + [n[3] for n in d['notes']] + [e[0] for f in ('tempos', 'tsigs', 'ccs')
+                                                                      for e in d.get(f, [])] + [d['total']]
+    if pool and rng.random() < 0.4:
+        return max(0, rng.choice(pool) + rng.choice([0, 0, -1, 1]))
+    return rng.randint(0, hi) * T
+
+
+PRESERVE = [None, None, [], [64], [66, 67], [7, 64], [64, 66, 67]]
+PRE = [['piece', 8 * T, 0], ['piece', 5 * T, 1], ['piece', 3 * T, 2], ['extract', 2 * T, 20 * T], ['trim', T, 18 * T],
+       ['sustain'], ['transpose', 0], ['transpose', 7], ['shift', 3 * T], ['quantize_abs', 4], ['merge'],
+       ['remove_redundant']]
+
+
 def gen_case(rng, op=None):
     op = op or rng.choice(OPS)
     d = _wfdesc(rng, max_notes=rng.choice([3, 8, 14]), max_events=rng.choice([1, 3]))
@@ -554,11 +709,23 @@ def gen_case(rng, op=None):
         d['sub'] = [rng.randint(0, 20) * T + rng.choice([0, 1]), rng.randint(0, 20) * T]
         if d['sub'] == [0, 0]:
             d['sub'] = [T, 0]
+    if d.get('meta') and d.get('sects') and rng.random() < 0.3:
+        ids = sorted(set(x[1] for x in d['sects']))
+        d = dict(d)                               # a section group nested in a section group, num_times 0..3
+        d['nest'] = [[rng.choice(ids), [rng.choice(ids) for _ in range(rng.randint(0, 2))],
+                      rng.randint(0, 3), rng.randint(0, 2)]]
+        if op == 'expand':
+            d['sects'] = sorted(d['sects'])
     seqs = [d]
     alias = False
+    pre = None
+    if rng.random() < 0.2:
+        pre = list(rng.choice(PRE))               # two-step use: the argument is the output of an earlier operation
     if op in ('trim', 'extract'):
-        a = rng.randint(0, 12) * T
-        b = a + rng.randint(0, 30) * T
+        a = _tpoint(rng, d, 12)
+        b = a + rng.choice([0, 1, T, rng.randint(0, 30) * T, rng.randint(0, 30) * T])
+        if rng.random() < 0.3:
+            b = max(a, _tpoint(rng, d))
         if raising:
             r = rng.random()
             if r < 0.4:
@@ -567,24 +734,30 @@ def gen_case(rng, op=None):
                 a = total + rng.randint(1, 4) * T; b = a + T
             else:
                 a, b = b + T, a                   # end before start: "Split times must be sorted"
-        args = [a, b]
+        args = [a, b] if op == 'trim' else [a, b, rng.choice(PRESERVE)]
     elif op == 'extract_many':
-        ts = sorted(rng.randint(0, 40) * T for _ in range(rng.randint(2, 5)))
+        ts = sorted(_tpoint(rng, d) for _ in range(rng.randint(2, 5)))
         if raising:
             r = rng.random()
-            if r < 0.3:
+            if r < 0.25:
                 seqs = [_quantized(rng, d)]
-            elif r < 0.6:
-                ts = ts[:1]
-            else:
+            elif r < 0.45:
+                ts = ts[:rng.randint(0, 1)]       # fewer than two split times (incl. the empty list)
+            elif r < 0.65:
                 ts = list(reversed(ts)) + [0]
-        args = [ts]
+            elif r < 0.85 and len(ts) > 2:
+                ts[-2], ts[-1] = ts[-1] + T, ts[-2]   # unsorted only at the END of the vector
+            else:
+                ts = ts[:1] + [total + T, total + 2 * T]   # a LATER piece starts past the end
+        args = [ts, rng.choice(PRESERVE)]
     elif op == 'split_hop':
-        args = [rng.choice([1, 2, 3, 5, 8]) * T, rng.random() < 0.5]
+        args = [rng.choice([1, 2, 3, 5, 8]) * T + rng.choice([0, 0, 1, T // 3]), rng.random() < 0.5]
+        if rng.random() < 0.1:
+            args[0] = total + rng.choice([0, T])   # a hop as long as / longer than the sequence
         if raising:
             seqs = [_quantized(rng, d)]
     elif op == 'split_list':
-        ts = sorted(set(rng.randint(0, 40) * T for _ in range(rng.randint(1, 4))))
+        ts = [_tpoint(rng, d) for _ in range(rng.randint(0, 4))]      # unsorted, duplicates, empty list: all legal
         args = [ts, rng.random() < 0.5]
         if raising:
             seqs = [_quantized(rng, d)]
@@ -593,11 +766,11 @@ def gen_case(rng, op=None):
         if raising:
             seqs = [_quantized(rng, d)]
     elif op == 'split_silence':
-        args = [rng.choice([1, 2, 4, 12]) * T]
+        args = [rng.choice([0, 1, 1, 2, 4, 12, 12]) * T + rng.choice([0, 0, 1])]
         if raising:
             seqs = [_quantized(rng, d)]
     elif op == 'shift':
-        args = [rng.randint(1, 20) * T]
+        args = [rng.choice([1, rng.randint(1, 20) * T, rng.randint(1, 20) * T + 3])]
         if raising:
             if rng.random() < 0.5:
                 args = [rng.choice([0, -T])]
@@ -611,9 +784,17 @@ def gen_case(rng, op=None):
         args = [rng.randint(-30, 30), rng.choice([0, 21, 40]), rng.choice([127, 108, 80]), rng.random() < 0.7]
         if rng.random() < 0.15:
             args[0] = 0        # "only clamp to the range": still deletes notes, resets pitch names, trims total_time
+        if rng.random() < 0.15 and d['notes']:
+            pz = rng.choice(d['notes'])[0] + args[0]
+            args[1], args[2] = rng.choice([(pz, pz), (pz, 127), (0, pz), (pz + 1, 127), (0, pz - 1), (0, 0), (127, 127)])
+        if rng.random() < 0.1 and d['notes']:
+            d2 = copy.deepcopy(d)                 # pitches at the ends of the MIDI range
+            d2['notes'][0][0] = rng.choice([0, 1, 126, 127])
+            seqs = [d2]
         if raising and rng.random() < 0.5:
-            d2 = dict(d)                          # ChordSymbolError: a chord symbol outside the grammar
-            d2['texts'] = list(d['texts']) + [[rng.randint(0, 40) * T, 0, 'Zzz#', 1]]
+            d2 = dict(seqs[0])                    # ChordSymbolError: a chord symbol outside the grammar, stored
+            d2['texts'] = list(d2['texts'])       # first, last or between valid ones
+            d2['texts'].insert(rng.randint(0, len(d2['texts'])), [rng.randint(0, 40) * T, 0, 'Zzz#', 1])
             seqs = [d2]
             args[3] = True
     elif op == 'quantize_rel':
@@ -643,12 +824,14 @@ def gen_case(rng, op=None):
         if raising:
             seqs = [_quantized(rng, d) if rng.random() < 0.5 else _negative(rng, d)]
     elif op == 'sustain':
-        args = [rng.choice([64, 64, 64, 66])]
+        args = [rng.choice([64, 64, 64, 66, 67, 7])]
         if raising:
             seqs = [_quantized(rng, d)]
     elif op in ('concatenate', 'merge'):
         k = rng.randint(1, 3)
         seqs = [d] + [_wfdesc(rng, max_notes=5, max_events=2) for _ in range(k - 1)]
+        if rng.random() < 0.06:
+            seqs = []                             # the empty list of sequences is legal
         for x in seqs[1:]:
             if rng.random() < 0.4:
                 x['sub'] = [rng.randint(1, 20) * T, rng.randint(0, 20) * T]
@@ -657,7 +840,9 @@ def gen_case(rng, op=None):
             r = rng.random()
             if r < 0.4:
                 durs = [s['total'] + rng.randint(0, 3) * T for s in seqs]
-            if raising:
+            elif r < 0.5:
+                durs = []                         # an explicit empty list instead of None
+            if raising and seqs:
                 r = rng.random()
                 if r < 0.4:
                     durs = [s['total'] for s in seqs] + [T]
@@ -665,12 +850,12 @@ def gen_case(rng, op=None):
                     durs = [max(0, s['total'] - T) for s in seqs]
                 else:                             # QuantizationStatusError from the shift of a later piece
                     seqs = seqs + [_quantized(rng, _wfdesc(rng, max_notes=3, max_events=1))]
-            if rng.random() < 0.2:
-                alias = True
+        if seqs and rng.random() < 0.2:
+            alias = True                          # the same object several times (concatenate and merge)
         args = [durs]
     elif op == 'repeat':
         dur = rng.randint(1, 60) * T
-        sd = rng.choice([None, None, total + rng.randint(0, 3) * T])
+        sd = rng.choice([None, None, 0, total + rng.randint(0, 3) * T, total + rng.randint(0, 3) * T + 1])
         if total == 0 and not sd:
             sd = T
         # never more than 8 copies (a sequence a few ticks long repeated to 15 s would ask for 2^38 copies)
@@ -704,10 +889,11 @@ def gen_case(rng, op=None):
         spec = rng.choice([['lin', rng.choice([1, 2, 3]), rng.choice([0, 1]), rng.randint(0, 4) * T],
                            ['pw', rng.randint(0, 20) * T], ['const', rng.randint(0, 3) * T]])
         if raising:
-            spec = rng.choice([['neg'], ['flip', rng.randint(0, 40) * T]])
-        args = [spec, rng.choice([None, None, T // 4])]
+            spec = rng.choice([['neg'], ['flip', rng.randint(0, 40) * T], ['late', rng.randint(0, 40) * T],
+                               ['late', _tpoint(rng, d)]])
+        args = [spec, rng.choice([None, None, 0, T // 4, 1])]
     elif op == 'rectify':
-        args = [rng.choice([60, 90, 120, 133])]
+        args = [rng.choice([60, 90, 120, 133, 1, 97.5])]
         if not raising:
             d2 = dict(d)
             d2['texts'] = list(d['texts']) + [[rng.randint(0, 44) * T + rng.choice([0, 0, 1, T // 3]), 0, 'beat', 2]
@@ -717,7 +903,10 @@ def gen_case(rng, op=None):
             seqs = [_quantized(rng, d)]
     else:
         raise ValueError(op)
-    return {'op': op, 'input': {'seqs': seqs, 'args': args, 'alias': alias}}
+    inp = {'seqs': seqs, 'args': args, 'alias': alias}
+    if pre is not None and seqs:
+        inp['pre'] = pre
+    return {'op': op, 'input': inp}
 
 
 def cases(rng, tier, n=None):
@@ -785,6 +974,10 @@ def corpus():
 
 
 def shrink(case):
+    if case['input'].get('pre'):
+        c = copy.deepcopy(case)
+        del c['input']['pre']
+        yield c
     seqs = case['input']['seqs']
     for i, d in enumerate(seqs):
         for sd in nsio.shrink_desc(d):
